@@ -138,7 +138,9 @@ DROPALL = ['StochasticIPTW', 'StochasticTMLE']
 
 def coq_raw(df, covs):
     def o(v, f):
-        return 'None' if v != v else 'Some ' + f(v)
+        if v is None or v != v:
+            return 'None'
+        return 'Some ' + (f(v) if not isinstance(v, str) else '1')       # a recorded label only has to be "present" for the gate
     rows = []
     for i, (_, r) in enumerate(df.iterrows()):
         rows.append('{| rid := %d%%nat; rx := %s; rc := [%s]; ry := %s |}' % (
@@ -158,6 +160,14 @@ def deletion_part(ctx, fails):
                                        missing=None if pattern == 'none' else pattern)
         covs = meta['covs']
         dfm = punch(df, ctx.rng, ['A'] + covs[:ctx.rng.randint(1, len(covs))])
+        if i % 3 == 2:
+            # a non-numeric bystander / covariate with entries of its own missing (None in an object column): such rows are
+            # incomplete like any other
+            site = [['north', 'south', 'east'][k % 3] for k in range(len(dfm))]
+            for k in ctx.rng.sample(range(len(dfm)), max(2, len(dfm) // 15)):
+                site[k] = None
+            dfm['site'] = pd.Series(site, index=dfm.index, dtype=object)
+            covs = covs + ['site']
         dfm['rowid'] = list(dfm.index)        # a complete bystander column carrying the harness's row ids into the analysed frame
         deleted = dfm.dropna(subset=['A'] + covs)
         cc = dfm.dropna()
